@@ -293,13 +293,17 @@ ADDENDA = {
            "EF F0 F4, continuation bytes 80 and BF).",
     "C04": "Pair families with byte-anagram characters and width-edge characters; recorded calls also use char patterns, "
            "needles of 7..65 bytes with near misses, and one-byte needles in 8..40-byte haystacks over bytes differing in "
-           "one bit.",
+           "one bit.  Long family: k false candidates before the occurrence for k in 0..40 and around 64 / 128 / 256, "
+           "occurrences beyond offset 255, needles of 12 / 13 / 255..257 bytes with a near miss.",
     "C05": "Pattern families with byte-anagram and width-edge characters; recorded calls with patterns of 7..65 bytes "
-           "and 8..40 repetitions.",
+           "and 8..40 repetitions.  Long family: k repetitions at either end for k in 0..40 and around 64 / 128 / 256, "
+           "patterns of 12 / 13 / 255..257 bytes, also evaluated in const items.",
     "C06": "Self-overlapping delimiters of three bytes and an empty/width-edge-character family in the model; recorded "
-           "histories with delimiters of 5..12 bytes at the start / end and as near misses.",
+           "histories with delimiters of 5..12 bytes at the start / end and as near misses; delimiters of 5 / 12 / 13 / "
+           "255..257 bytes with one-byte near misses in the model.",
     "C07": "Recorded strings with ASCII runs of 7..64 bytes and a wide character near either end; from_u32 on every "
-           "power of two from 2^21 and on scalar values with high bits added.",
+           "power of two from 2^21 and on scalar values with high bits added; two strings of 258 / 259 bytes with every "
+           "front / back interleaving.",
     "C08": "Sizes standing for isize::MAX / usize::MAX (invariant ArithInv: no intermediate exceeds the length), "
            "array_chunks N in {1,2,3,4,5,8,16}, and zero-sized slices of isize::MAX+1 / usize::MAX elements three steps deep "
            "(lengths compared, projection guarded by std).",
